@@ -61,9 +61,12 @@ CHECKS = {
  "C19": dict(technique="differential PBT against a reference depth function over generated recursive selections with fragments at every level; exhaustive enumeration of fragment wrappings for small selections (thorough)",
              text="For generated documents, variable values, limits and operation_name filters the rule (called directly and through validate_ast) must report exactly the considered operations whose reference depth exceeds the limit and never raise; the reference follows the class docstring (fragments transparent, skipped selections ignored, merged keys take the maximum).",
              note="Trusted: ref_depths() in props/c19.py, self-checked on the docstring example.", ref="3/C19"),
+ "C20": dict(technique="PBT over (schema, edited schema) pairs with 32 labelled elementary edits and an independent type-compatibility reference; equal-copy and permutation metamorphic checks; operation revalidation; hash-seed child processes (thorough)",
+             text="Structurally equal copies must diff empty; each elementary edit must be reported by a change of the expected class naming the edited element unless the reference comparison (outputs only stricter, inputs only more permissive) calls it compatible; edits the reference classifies as breaking need a BREAKING change; without BREAKING changes operations valid on the old schema must validate on the new one; the change multiset is independent of definition order and PYTHONHASHSEED.",
+             note="Trusted: edit injectors and output_compatible/input_compatible in props/c20.py.", ref="3/C20"),
 }
 ALL = ["C%02d" % i for i in range(1, 21)]
-NA_REASON = "check not built yet (work in progress; see DESIGN.md section 3 for the planned design)"
+NA_REASON = "not claimed"
 
 def main():
     checks = []
